@@ -49,6 +49,7 @@ structure St where
   inExchange : Bool := false
   lastOp : String := "init"
   pendingJoinN : Option (Nat × List Hash) := none
+  pendingLoad : Option (Nat × Nat × String) := none
 deriving Inhabited
 
 def St.emit (s : St) (m : String) : St := { s with out := s.out.push m }
@@ -237,6 +238,7 @@ def handle (s : St) (line : String) : St :=
       | none => s.diff "load" "panic(empty result)" res
       | some l' =>
         let cut := nI > -1 && nI < fetched.length
+        let s := if nI == -1 && !sr.partialLog then { s with pendingLoad := some (r.toNat!, src.toNat!, kind) } else s
         s.setRep r.toNat! { log := l', writer := cid, partialLog := sr.partialLog || cut, orderFree := s.shared }
   | ["I", r, lte, lt, gte, gt, am, res, closed, outs] =>
     let s := { s with lastOp := "iter" }
@@ -336,6 +338,20 @@ def handle (s : St) (line : String) : St :=
               s.known "C05" "lww-tie-order" s!"replica {r}: {sw.length} tied pair(s) changed relative order"
             else s.spec "C05" "valuesSubseq" false s!"replica {r} (tie history)"
         s
+      -- C09: an unbounded load gives the source log back (implementation against implementation)
+      let s := match s.pendingLoad with
+        | some (nr, sr, kind) =>
+          if nr == r.toNat! then
+            let s := { s with pendingLoad := none }
+            match s.rep? sr with
+            | none => s
+            | some srcRep =>
+              let s := s.spec "C09" "sameEntries" (srcRep.lastE == iE) s!"{kind} from replica {sr}"
+              let s := s.spec "C09" "sameHeads" (srcRep.lastH == sortStrs (parseList raw)) s!"{kind} from replica {sr}"
+              if sto && rep.log.sortFn != SortKind.fww && !rep.orderFree && srcRep.log.sortFn == rep.log.sortFn then
+                s.spec "C09" "sameValues" (srcRep.lastV == iV) s!"{kind} from replica {sr}" else s
+          else s
+        | none => s
       -- C16 for the bounded join that preceded this observation
       let s := match s.pendingJoinN with
         | some (pr, keep) =>
@@ -355,6 +371,9 @@ def handle (s : St) (line : String) : St :=
           else s
         | none => s
       s.setRep r.toNat! { rep with lastE := iE, lastV := iV, lastH := sortStrs (parseList raw) }
+  | ["Z", r] =>
+    -- forget a replica (it was only built to be compared with its source)
+    if r.toNat! < s.reps.size then { s with reps := s.reps.set! r.toNat! none } else s
   | ["X", "begin"] => { s with inExchange := true, lastOp := "exchange" }
   | ["X", "end"] =>
     -- C01: after a complete exchange all replicas of one id agree
